@@ -148,14 +148,14 @@ class Ctx:
             os.makedirs(os.path.join(VERIF, 'work', 'replay'), exist_ok=True)
             # violations with a concrete failing input first
             self.violations.sort(key=lambda v: not v['found'])
-            v = self.violations[0]
+            first = self.violations[0]
             path = os.path.join(VERIF, 'work', 'replay', '%s-%s.json' % (self.prop, self.tier))
             with open(path, 'w') as f:
                 json.dump({'property': self.prop, 'seed': self.seed, 'tier': self.tier,
                            'violations': self.violations[:20]}, f, indent=1, default=str)
             for v in self.violations[:5]:
                 print('  - %s' % v['what'])
-            tail = '' if v['found'] else ' no-failing-input-found'
+            tail = '' if first['found'] else ' no-failing-input-found'
             print('VIOLATION property=%s replay=%s%s' % (self.prop, path, tail))
             return 1
         print('OK property=%s tier=%s obligations=%d discharged=%d evaluations=%d wall=%.1fs' % (
